@@ -52,6 +52,8 @@ def inline_args(st):
     """argument expressions that are themselves calls: ['icall', fi, form] / ['iload', path] (plain calls only)"""
     if st[0] == "call" and len(st) > 3:
         return [a for a in st[3] if a[0] in ("icall", "iload")]
+    if st[0] == "keep":
+        return [a for a in st[4] if a[0] in ("icall", "iload")]
     return []
 
 
@@ -156,7 +158,7 @@ def render_stmt(prog, here_mod, k, st, in_class=False):
         return [f"r{k} = {c['name']}({lit(dec(st[2]))}).m()"]
     if kind == "keep":
         callee = prog["funcs"][st[2]]
-        args = render_args(prog, callee, st[4])
+        args = render_args(prog, callee, st[4], here_mod=here_mod)
         head = [repr(st[1]), call_expr(prog, here_mod, st[2], st[3])]
         if len(st) > 5 and st[5] == "multiline" and args:
             lines = [f"r{k} = dds.keep(", f"    {head[0]}, {head[1]},"]
@@ -488,6 +490,11 @@ def closure(prog, fi, _seen=None):
                         out["loads"].add(a[1])
                 visit_f(st[1])
             elif k == "keep":
+                for a in inline_args(st):
+                    if a[0] == "icall":
+                        visit_f(a[1])
+                    else:
+                        out["loads"].add(a[1])
                 visit_f(st[2])
             elif k == "load":
                 out["loads"].add(st[1])
@@ -530,6 +537,9 @@ def kept_sites(prog, root):
                         visit_f(a[1])
                 visit_f(st[1])
             elif k == "keep":
+                for a in inline_args(st):
+                    if a[0] == "icall":
+                        visit_f(a[1])
                 ctxfree = all(a[0] in ("lit", "omit") for a in st[4])
                 sites.setdefault(st[1], {"path": st[1], "callee": st[2], "ctxfree": ctxfree, "kind": "keep", "args": st[4]})
                 visit_f(st[2])
@@ -634,6 +644,9 @@ def sim_log(prog, root, may_exec):
                         run_f(a[1])
                 run_f(st[1])
             elif k == "keep":
+                for a in inline_args(st):
+                    if a[0] == "icall":
+                        run_f(a[1])
                 if may_exec(st[1]):
                     f = prog["funcs"][st[2]]
                     log.append(f["name"])
